@@ -136,7 +136,7 @@ func (s *ledgerSim) checkBalances(n *node, addrs []model.Addr) {
 	// expectations first: a 64-bit overflow anywhere in the exact sums makes the answer (or an error) undecided
 	type expBal struct {
 		coins, hours, pcoins, phours *big.Int
-		has, undecided             bool
+		has, undecided               bool
 	}
 	exps := make([]expBal, len(addrs))
 	anyUndecided := false
@@ -369,6 +369,47 @@ func (s *ledgerSim) checkHistory(n *node, addrs []model.Addr) {
 			return
 		}
 		lastSeq = seq
+	}
+	// the unconfirmed side of the same query: every pooled transaction that pays one of the addresses is listed,
+	// and everything listed is a pooled transaction that touches them (the node indexes unconfirmed transactions by
+	// the addresses they pay; whether a pure spend is listed too is left open)
+	utxs, _, err := n.v.GetTransactions([]visor.TxFilter{visor.NewAddrsFilter(cAddrs(addrs)), visor.NewConfirmedTxFilter(false)}, visor.AscOrder, nil)
+	if err != nil {
+		c.Violate("address-txn-history", "unconfirmed-query-fails", "node %d: unconfirmed transactions of %d addresses: %v (pool has %d)", n.id, len(addrs), err, len(m.Pool))
+		return
+	}
+	listed := map[model.Hash]bool{}
+	for i := range utxs {
+		umt := mTxn(&utxs[i].Transaction)
+		h := umt.Hash()
+		e, ok := m.Pool[h]
+		touches := false
+		if ok {
+			for _, o := range e.Txn.Out {
+				touches = touches || inSet[o.Addr]
+			}
+			for _, in := range e.Txn.In {
+				touches = touches || inSet[m.Created[in].Addr]
+			}
+		}
+		if !ok || utxs[i].Status.Confirmed || !touches || listed[h] {
+			c.Violate("address-txn-history", "unconfirmed-entry", "node %d lists %s as an unconfirmed transaction of the addresses: pooled=%v confirmed=%v touches=%v repeated=%v", n.id, short(h), ok, utxs[i].Status.Confirmed, touches, listed[h])
+			return
+		}
+		listed[h] = true
+	}
+	for _, h := range m.PoolHashes() {
+		pays := false
+		for _, o := range m.Pool[h].Txn.Out {
+			pays = pays || inSet[o.Addr]
+		}
+		if pays && !listed[h] {
+			c.Violate("address-txn-history", "unconfirmed-missing", "node %d does not list pooled transaction %s although it pays one of the addresses", n.id, short(h))
+			return
+		}
+	}
+	if len(m.Pool) > 0 {
+		c.Count("probe.address_unconfirmed_history_compared")
 	}
 	all, _, err := n.v.GetTransactions([]visor.TxFilter{visor.NewConfirmedTxFilter(true)}, visor.AscOrder, nil)
 	if err != nil {
